@@ -80,6 +80,7 @@ type raftModel struct {
 	truncated uint64         // highest index compacted away
 	term      uint64
 	hs        myraft.HardState
+	seg       map[uint64]string // entry index -> WAL segment file its (latest) record was appended to
 }
 
 func (g *raftModel) last() uint64 {
@@ -120,6 +121,9 @@ func execC36(t *testing.T, c *sim.Case) *sim.Result {
 			return
 		}
 		imgN := 0
+		// WAL segments that received LSM writes (a segment without any is flushed
+		// as an empty memtable and removed without a retention check - known finding)
+		lsmSegs := map[string]bool{}
 		var images []c36Image
 		defer func() {
 			for _, im := range images {
@@ -143,6 +147,9 @@ func execC36(t *testing.T, c *sim.Case) *sim.Result {
 						}
 					}
 					batches = append(batches, bw)
+				}
+				if err == nil {
+					lsmSegs[fmt.Sprintf("%05d.wal", w.DB.WAL().ActiveSegment())] = true
 				}
 			case "rappend":
 				g := groups[int(op.A)%ngroups]
@@ -168,6 +175,12 @@ func execC36(t *testing.T, c *sim.Case) *sim.Result {
 					}
 					g.entries = append(keep, ents...)
 					res.Faults["raft_append"]++
+					if g.seg == nil {
+						g.seg = map[uint64]string{}
+					}
+					for _, e := range ents {
+						g.seg[e.Index] = fmt.Sprintf("%05d.wal", w.DB.WAL().ActiveSegment())
+					}
 				}
 			case "rhs":
 				g := groups[int(op.A)%ngroups]
@@ -203,6 +216,32 @@ func execC36(t *testing.T, c *sim.Case) *sim.Result {
 				after := walSegments(w.Dir)
 				if len(after) < len(before) {
 					res.Faults["watchdog_removed_segment"] += len(before) - len(after)
+				}
+				// Invariant at the moment of removal: the watchdog never deletes a segment
+				// that holds a raft entry above the group's truncation index.
+				still := map[string]bool{}
+				for _, sname := range walSegments(w.Dir) {
+					still[sname] = true
+				}
+				for _, sname := range after {
+					still[sname] = true
+				}
+				removedNow := map[string]bool{}
+				for _, sname := range before {
+					if !still[sname] {
+						removedNow[sname] = true
+					}
+				}
+				for _, g := range groups {
+					for _, e := range g.entries {
+						if sname := g.seg[e.Index]; removedNow[sname] && e.Index > g.truncated {
+							res.Violate(i, "watchdog_removed_needed_segment", map[string]string{"truncation_recorded": yn(g.truncated > 0)},
+								"watchdog pass removed %s, which holds entry %d of group %d (truncated through %d, log [%d..%d]); segments %v -> %v",
+								sname, e.Index, g.id, g.truncated, g.entries[0].Index, g.last(), before, after)
+							delete(g.seg, e.Index) // reported once
+							break
+						}
+					}
 				}
 				res.Trace.Add("watchdog %v -> %v", before, after)
 			case "crash", "reopen":
@@ -245,8 +284,34 @@ func execC36(t *testing.T, c *sim.Case) *sim.Result {
 					return
 				}
 			default:
+				before := walSegments(w.Dir)
 				if w.Maint(op) {
 					res.Trace.Add("maint %s", op.String())
+				}
+				// the same invariant for segments removed by flush / rotation / close+open
+				still := map[string]bool{}
+				for _, sname := range walSegments(w.Dir) {
+					still[sname] = true
+				}
+				for _, g := range groups {
+					for _, e := range g.entries {
+						sname := g.seg[e.Index]
+						if sname == "" || still[sname] || e.Index <= g.truncated {
+							continue
+						}
+						was := false
+						for _, b := range before {
+							was = was || b == sname
+						}
+						if !was {
+							continue
+						}
+						res.Violate(i, "maintenance_removed_needed_segment", map[string]string{"op": op.K, "truncation_recorded": yn(g.truncated > 0), "segment_had_lsm_writes": yn(lsmSegs[sname])},
+							"%s removed %s, which holds entry %d of group %d (truncated through %d, log [%d..%d]); segments %v -> %v",
+							op.String(), sname, e.Index, g.id, g.truncated, g.entries[0].Index, g.last(), before, walSegments(w.Dir))
+						delete(g.seg, e.Index)
+						break
+					}
 				}
 			}
 			if w.DB == nil {
